@@ -28,7 +28,7 @@ log="$here/last-$(basename "$wt").log"
 (cd "$wt" && go test -v -vet=off -count=1 -run 'TestRepro' ./store ./sasl ./cmd/whawty-auth) > "$log" 2>&1
 
 rc=0
-for n in 1 2 3 4 5 6 7 8 9; do
+for n in 1 2 3 4 5 6 7 8 9 10; do
   if grep -q -- "^--- PASS: TestReproF$n " "$log"; then
     echo "F$n PASS"
   elif grep -q -- "^--- SKIP: TestReproF$n " "$log"; then
